@@ -157,7 +157,8 @@ func oneLoopRun(r *Rng, out *AreaOut, idx int) (string, string, bool, error) {
 	updCh := make(chan snapshot.Update, 64)
 	h := hooks.New()
 	h.OtherUpdateSource = func() <-chan snapshot.Update { return updCh }
-	sy, err := newSyncer(env, st, syncerOpts{Native: native, DupHack: true, SyncerOpt: syncer.Options{Hooks: h}, Mod: func(c *configT, lc *lmdbCfgT) {
+	recvOnly := r.Chance(10) // receive-only instance: captures and merges, never uploads
+	sy, err := newSyncer(env, st, syncerOpts{Native: native, DupHack: true, SyncerOpt: syncer.Options{Hooks: h, ReceiveOnly: recvOnly}, Mod: func(c *configT, lc *lmdbCfgT) {
 		c.StorageRetryCount = 3
 		c.StoragePollInterval = time.Hour
 		c.LMDBPollInterval = time.Millisecond
@@ -179,7 +180,7 @@ func oneLoopRun(r *Rng, out *AreaOut, idx int) (string, string, bool, error) {
 	// directed schedule (a third of the runs): a peer's snapshot that contains nothing new (an echo of this
 	// instance's own upload) is merged, then exactly ONE application transaction commits, then another echo
 	// arrives — the sequence in which a transaction id counted as synced by mistake shows
-	script := r.Chance(35)
+	script := r.Chance(35) && !recvOnly
 	phase := 0
 	sawLoadEnd := false
 	if script {
@@ -197,6 +198,7 @@ func oneLoopRun(r *Rng, out *AreaOut, idx int) (string, string, bool, error) {
 	var exitErr error
 	exited := false
 	var echo []string
+	commAtStore := uint64(0)
 	lastStoreCount := 0
 	for !exited {
 		select {
@@ -225,6 +227,12 @@ func oneLoopRun(r *Rng, out *AreaOut, idx int) (string, string, bool, error) {
 			var a []string
 			if p == "load.end" {
 				sawLoadEnd = true
+			}
+			if p == "send.end" { // reached only after a successful Store; runs in the loop's goroutine
+				commAtStore = 0
+				if t, ok := sy.VerifLastByInstance()["b"]; ok && !t.IsZero() {
+					commAtStore = uint64(t.UnixNano())
+				}
 			}
 			if script && yi <= K-quiet {
 				st.mu.Lock()
@@ -294,7 +302,17 @@ func oneLoopRun(r *Rng, out *AreaOut, idx int) (string, string, bool, error) {
 					if r.Chance(pa) {
 						ops := genAppOps(r, native, false, 1+r.Intn(2))
 						// at least one op must write (a transaction that only deletes a missing key is not recorded)
-						ops = append(ops, appOp{DBI: "app", Key: pick(r, byteKeyPool[:8]), Val: pick(r, instVals)})
+						nDelApp := 0
+						for _, o := range ops {
+							if o.DBI == "app" && o.Del {
+								nDelApp++
+							}
+						}
+						if nDelApp >= 8 { // the application emptied "app": keep it empty, write elsewhere
+							ops = append(ops, appOp{DBI: "yy", Key: pick(r, byteKeyPool[:3]), Val: pick(r, instVals)})
+						} else {
+							ops = append(ops, appOp{DBI: "app", Key: pick(r, byteKeyPool[:8]), Val: pick(r, instVals)})
+						}
 						var oc []string
 						for _, o := range ops {
 							raw := o.Val
@@ -383,10 +401,19 @@ func oneLoopRun(r *Rng, out *AreaOut, idx int) (string, string, bool, error) {
 	if err != nil {
 		return "", "", false, err
 	}
-	cfg := fmt.Sprintf("(mkICfg %s true false false false)", cBool(native))
-	cs := fmt.Sprintf("mkLC %s %s %s %d %s %s", cfg, cEnv(before, last0), lst(acts), clock0, lst(trace), cEnv(after, last1))
+	cfg := fmt.Sprintf("(mkICfg %s true false %s false)", cBool(native), cBool(recvOnly))
+	// what the cleaner was told (SetCommitted) and what the loop recorded as merged, for the peer instance
+	commB := uint64(0)
+	if t := sy.VerifCleaner().GetCommitted("b"); !t.IsZero() {
+		commB = uint64(t.UnixNano())
+	}
+	lastB := uint64(0)
+	if t, ok := sy.VerifLastByInstance()["b"]; ok && !t.IsZero() {
+		lastB = uint64(t.UnixNano())
+	}
+	cs := fmt.Sprintf("mkLC %s %s %s %d %s %s %d %d", cfg, cEnv(before, last0), lst(acts), clock0, lst(trace), cEnv(after, last1), commB, lastB)
 	key := cfg + cEnv(before, last0) + lst(acts)
-	hist(out.Hist, fmt.Sprintf("native=%v/app=%d/inject=%d/exit=%d", native, min(nApp, 3), min(nInj, 2), cls))
+	hist(out.Hist, fmt.Sprintf("native=%v/recvonly=%v/app=%d/inject=%d/exit=%d", native, recvOnly, min(nApp, 3), min(nInj, 2), cls))
 
 	// ---------------- implementation-side oracles (C03, C09, C10) ----------------
 	out.OracleN++
@@ -396,6 +423,13 @@ func oneLoopRun(r *Rng, out *AreaOut, idx int) (string, string, bool, error) {
 	}
 	for _, e := range st.late {
 		out.Oracle = append(out.Oracle, OracleFailure{"C06", "time-of-image", e, in})
+	}
+	// C12 / C05: the cleaner is told that a peer's snapshot is "committed" only by a SUCCESSFUL own upload that
+	// followed its merge: the value is what the loop had merged when that upload's Store succeeded
+	if commB != commAtStore {
+		for _, pid := range []string{"C12", "C05"} {
+			out.Oracle = append(out.Oracle, OracleFailure{pid, "committed-without-upload", fmt.Sprintf("cleaner.GetCommitted(b) = %d at the end of the run, but the merged-snapshot time of b at the last successful own upload was %d (0 = no successful upload after a merge of b)", commB, commAtStore), in})
+		}
 	}
 	if cls == 0 && !cancelFlag { // only a run that ended idle (quiet tail, stopped by the schedule) is judged
 		// last write per key
@@ -436,8 +470,10 @@ func oneLoopRun(r *Rng, out *AreaOut, idx int) (string, string, bool, error) {
 					}
 				}
 			}
-			// C09: the newest own snapshot holds a version at least as new as the write
-			if newest != nil {
+			// C09: the newest own snapshot holds a version at least as new as the write (a receive-only instance
+			// publishes nothing by design)
+			if recvOnly {
+			} else if newest != nil {
 				found := false
 				seenTS := []uint64{}
 				for _, d := range newest.DBIs {
